@@ -18,6 +18,9 @@ Record case := Case {
   c_eqcls : list nat;              (* per heap node: its EQUALITY class under Python's == (nodes of one class
                                       compare equal); carried for the record only - the model identifies
                                       objects by their heap index (identity) and never reads this field *)
+  c_defqn : list string;           (* per heap node: the __qualname__ of the class that was DECORATED, i.e.
+                                      whose generated __repr__ runs ("" for non-instances); the instance's
+                                      [OI] carries the RUNTIME class's qualname, which is all the model reads *)
   c_warm : bool;                   (* sequential: repr_context.already_repring already exists (empty) *)
   c_faults : list (list bool);     (* fault oracle of thread t (sequential: of entry 0) *)
   c_threaded : bool;               (* true: call i is made by thread i, all concurrently *)
@@ -127,7 +130,14 @@ Qed.
 (** The prediction does not depend on which objects compare equal under [==]: only
     object identity (the heap index) enters the guard of the generated [__repr__]. *)
 Lemma model_ignores_equality c cls' :
-  model_of (Case (c_heap c) cls' (c_warm c) (c_faults c) (c_threaded c) (c_sched c) (c_rounds c)
+  model_of (Case (c_heap c) cls' (c_defqn c) (c_warm c) (c_faults c) (c_threaded c) (c_sched c) (c_rounds c)
+                 (c_calls c) (c_seen c)) = model_of c.
+Proof. reflexivity. Qed.
+
+(** The prediction depends only on the RUNTIME class's qualified name (in the heap),
+    never on the qualified name of the class the decorator was applied to. *)
+Lemma model_ignores_defining_qualname c dq' :
+  model_of (Case (c_heap c) (c_eqcls c) dq' (c_warm c) (c_faults c) (c_threaded c) (c_sched c) (c_rounds c)
                  (c_calls c) (c_seen c)) = model_of c.
 Proof. reflexivity. Qed.
 
